@@ -1,5 +1,6 @@
 import CJ.Model.WrapReg
 import CJ.Gen.PrefixTable
+import CJ.Gen.Obfs4Consts
 import CJ.Props.C08
 /-!
 # C02 — only proof of a validated registration's secret on that phantom opens a tunnel
@@ -169,12 +170,24 @@ theorem match_requires_valid_tracked (s : St) (p : String) (info) (d : Bytes) (r
     obtain ⟨reg, h1, h2, _, h4⟩ := mem_views hr
     exact ⟨r.ident, reg, h1, h2, by rw [← h4, hrid]⟩
 
-/-- registrations of another phantom are invisible: nothing tracked only under `p' ≠ p` can be matched
-on a connection to `p` -/
-theorem cross_phantom_rejected (s : St) (p : String) (info) (r : RegView) (h : r ∈ views s p info) :
-    s.decoys.contains (p, r.ident) = true := by
-  obtain ⟨reg, h1, _⟩ := mem_views h
-  exact contains_of_getElem? _ _ _ h1
+/-- an identifier that is not tracked under THIS phantom is not among the visible registrations —
+whatever is tracked, valid and unexpired under other phantoms -/
+theorem not_tracked_here_invisible (s : St) (p i : String) (info)
+    (h : s.decoys.contains (p, i) = false) : ∀ r ∈ views s p info, r.ident ≠ i := by
+  intro r hr e
+  obtain ⟨reg, h1, _⟩ := mem_views hr
+  rw [e] at h1
+  rw [contains_of_getElem? _ _ _ h1] at h; cases h
+
+/-- **Cross-phantom replay is rejected** (min): a stream whose first 32 bytes are the identifier of a
+registration that is tracked under another phantom only — a genuine flight replayed against the
+wrong phantom — is not accepted on a connection to `p`, in any registry state. -/
+theorem cross_phantom_rejected (s : St) (p : String) (info) (d : Bytes)
+    (h : s.decoys.contains (p, toHex (d.take 32)) = false) :
+    ∀ rid n, wrapMin (views s p info) d ≠ .found rid n := by
+  intro rid n hf
+  obtain ⟨r, hr, _, hi, _⟩ := min_match_sound _ d rid n hf
+  exact not_tracked_here_invisible s p _ info h r hr hi
 
 /-- a tracked but not yet validated registration is invisible -/
 theorem unvalidated_rejected (s : St) (p i : String) (info) (reg : Reg)
@@ -195,9 +208,10 @@ theorem expired_rejected (c : Cfg) (s : St) (hr : C08.Reach c s) (now : Nat) (p 
   | none => rw [ht] at hc; cases hc
   | some t => exact ⟨t, rfl, C08.never_kept c s hr now (p, r.ident) t ht⟩
 
-/-- matched to exactly that registration: identifiers are the keys of the per-phantom map, so two
-visible registrations with the same identifier are the same map entry -/
-theorem match_unique (s : St) (p : String) (info) (r1 r2 : RegView)
+/-- identifiers are the keys of the per-phantom map, so two visible registrations with the same
+identifier are the same map entry (key uniqueness; "matched to exactly that registration" is
+`min_matches_exactly_presented` / `prefixK_matches_exactly_revealed` below) -/
+theorem views_ident_unique (s : St) (p : String) (info) (r1 r2 : RegView)
     (h1 : r1 ∈ views s p info) (h2 : r2 ∈ views s p info) (he : r1.ident = r2.ident) : r1 = r2 := by
   obtain ⟨reg1, a1, _, t1, i1⟩ := mem_views h1
   obtain ⟨reg2, a2, _, t2, i2⟩ := mem_views h2
@@ -214,6 +228,230 @@ theorem match_unique (s : St) (p : String) (info) (r1 r2 : RegView)
   have : k1 = k2 := Prod.ext (by rw [f1.1, f2.1]) he
   subst this
   rw [hk1] at hk2; cases hk2; rfl
+
+/-! ## several station keys: the prefix classifier as the code runs it -/
+
+theorem getRegK_some {regs : List RegView} {ids : List String} {r : RegView} (h : getRegK regs ids = some r) :
+    r ∈ regs ∧ r.ident ∈ ids := by
+  unfold getRegK at h
+  obtain ⟨id, hid, hf⟩ := List.exists_of_findSome?_eq_some h
+  obtain ⟨hm, hi⟩ := findReg_some hf
+  exact ⟨hm, by rw [hi]; exact hid⟩
+
+theorem prefixIterK_found (reveals : Bytes → List String) (regs : List RegView) (d : Bytes) (st : PLoop)
+    (e : PrefixEntry) (rid n : Nat) (h : prefixIterK reveals regs d st e = .inl (.found rid n)) :
+    ∃ r ∈ regs, r.rid = rid ∧ r.ident ∈ reveals (window d e.offset) ∧ r.transport = 4 ∧
+      r.prefixParam = some (some e.id) ∧ staticOk e d = true ∧ e.maxLen ≤ d.length ∧
+      e.offset + 64 ≤ d.length ∧ n = e.offset + 64 := by
+  unfold prefixIterK at h
+  split at h; · cases h
+  rename_i hs
+  split at h; · cases h
+  split at h; · cases h
+  split at h; · cases h
+  rename_i hmax
+  split at h; · cases h
+  rename_i hoff
+  split at h
+  · cases h
+  · rename_i r hr
+    obtain ⟨hm, hi⟩ := getRegK_some hr
+    split at h; · cases h
+    rename_i htr
+    split at h; · cases h
+    rename_i hpp
+    simp only [Sum.inl.injEq, Verdict.found.injEq] at h
+    refine ⟨r, hm, h.1, hi, by simpa using htr, by simpa using hpp, by simpa using hs,
+      by omega, by simp [prefixTagLen] at hoff; omega, by simp [prefixTagLen] at h; omega⟩
+
+theorem prefixLoopK_found (reveals : Bytes → List String) (regs : List RegView) (d : Bytes)
+    (table : List PrefixEntry) (st : PLoop) (rid n : Nat)
+    (h : prefixLoopK reveals regs d st table = .found rid n) :
+    ∃ e ∈ table, ∃ r ∈ regs, r.rid = rid ∧ r.ident ∈ reveals (window d e.offset) ∧ r.transport = 4 ∧
+      r.prefixParam = some (some e.id) ∧ staticOk e d = true ∧ e.maxLen ≤ d.length ∧
+      e.offset + 64 ≤ d.length ∧ n = e.offset + 64 := by
+  induction table generalizing st with
+  | nil =>
+    simp only [prefixLoopK] at h
+    split at h; · cases h
+    split at h <;> cases h
+  | cons e es ih =>
+    simp only [prefixLoopK] at h
+    split at h
+    · rename_i v hv
+      subst h
+      obtain ⟨r, hr⟩ := prefixIterK_found reveals regs d st e rid n hv
+      exact ⟨e, List.mem_cons_self .., r, hr⟩
+    · rename_i st' _
+      obtain ⟨e', he', rest⟩ := ih st' h
+      exact ⟨e', List.mem_cons_of_mem _ he', rest⟩
+
+/-- prefix with any number of station keys: matched ⇒ for some supported prefix whose static bytes
+lead the stream, SOME station key reveals from the 64-byte window at its offset the identifier of a
+registration visible on this phantom; that registration is a PREFIX registration and registered
+exactly THIS prefix id.  For every iteration order of the table and every key order. -/
+theorem prefixK_match_sound (table : List PrefixEntry) (reveals : Bytes → List String)
+    (regs : List RegView) (d : Bytes) (rid n : Nat) (h : wrapPrefixK table reveals regs d = .found rid n) :
+    ∃ e ∈ table, ∃ r ∈ regs, r.rid = rid ∧ r.ident ∈ reveals (window d e.offset) ∧ r.transport = 4 ∧
+      r.prefixParam = some (some e.id) ∧ staticOk e d = true ∧ e.maxLen ≤ d.length ∧
+      e.offset + 64 ≤ d.length ∧ n = e.offset + 64 := by
+  unfold wrapPrefixK at h
+  split at h
+  · cases h
+  · exact prefixLoopK_found reveals regs d table {} rid n h
+
+/-- with one key the several-key classifier is the one-key classifier (which C03 / C04 build on) -/
+theorem wrapPrefixK_single (table : List PrefixEntry) (reveal : Bytes → Option String)
+    (regs : List RegView) (d : Bytes) :
+    wrapPrefixK table (fun w => (reveal w).toList) regs d = wrapPrefix table reveal regs d := by
+  have hget : ∀ w, getRegK regs ((reveal w).toList) = (reveal w).bind (findReg regs) := by
+    intro w
+    cases reveal w with
+    | none => rfl
+    | some id => simp [getRegK]
+  have hiter : ∀ st e, prefixIterK (fun w => (reveal w).toList) regs d st e = prefixIter reveal regs d st e := by
+    intro st e
+    unfold prefixIterK prefixIter
+    simp only [hget]
+    cases hr : reveal (window d e.offset) with
+    | none => simp
+    | some id => simp only [Option.bind_some]
+  have hloop : ∀ st, prefixLoopK (fun w => (reveal w).toList) regs d st table = prefixLoop reveal regs d st table := by
+    induction table with
+    | nil => intro st; rfl
+    | cons e es ih =>
+      intro st
+      simp only [prefixLoopK, prefixLoop, hiter]
+      cases prefixIter reveal regs d st e with
+      | inl v => rfl
+      | inr st' => exact ih st'
+  unfold wrapPrefixK wrapPrefix
+  split
+  · rfl
+  · exact hloop {}
+
+theorem prefixIterK_no_panic (reveals : Bytes → List String) (regs : List RegView) (d : Bytes) (st : PLoop)
+    (e : PrefixEntry) (hwf : e.offset + prefixTagLen ≤ max e.minLen e.maxLen) :
+    prefixIterK reveals regs d st e ≠ .inl .panic := by
+  unfold prefixIterK
+  split; · simp
+  split; · simp
+  rename_i hmin
+  split; · simp
+  split; · simp
+  rename_i hmax
+  split
+  · rename_i hoff
+    exfalso
+    have : max e.minLen e.maxLen ≤ d.length := by
+      simp only [Nat.not_lt] at hmin hmax
+      exact Nat.max_le.mpr ⟨hmin, hmax⟩
+    omega
+  · split
+    · simp
+    · split
+      · simp
+      · split <;> simp
+
+/-! ## cross-transport: identifiers are per (secret, transport)
+
+`IdentOf sec tr` is the identifier (hex text) the transport `tr` derives from the shared secret
+`sec`; `NoTagCollision` — the HMAC idealisation, a HYPOTHESIS, not an axiom — says that distinct
+(secret, transport) pairs have distinct identifiers.  `Honest` says that the visible registrations
+carry the identifiers of their own secret and transport (`secOf rid` is the secret of registration
+`rid`), which is how `track` stores them (`t.GetIdentifier(d)`). -/
+
+def NoTagCollision (IdentOf : Nat → Nat → String) : Prop :=
+  ∀ s t s' t', IdentOf s t = IdentOf s' t' → s = s' ∧ t = t'
+
+def Honest (IdentOf : Nat → Nat → String) (secOf : Nat → Nat) (regs : List RegView) : Prop :=
+  ∀ r ∈ regs, r.ident = IdentOf (secOf r.rid) r.transport
+
+/-- min: matched to EXACTLY the registration whose identifier was presented: if the first 32 bytes
+are the identifier of (secret `s`, transport `t`), the matched registration has secret `s` and
+transport `t`.  (READING DECISION, pinned by the harness: min does not look at `t` — someone who
+knows the secret of a prefix registration and presents its raw identifier to min is matched to that
+prefix registration.  That is a crafted stream by a holder of the secret, not a genuine flight
+produced for another transport: genuine prefix / obfs4 flights never start with a raw identifier.) -/
+theorem min_matches_exactly_presented (IdentOf : Nat → Nat → String) (secOf : Nat → Nat)
+    (hnc : NoTagCollision IdentOf) (regs : List RegView) (hh : Honest IdentOf secOf regs)
+    (d : Bytes) (s t rid n : Nat) (hd : toHex (d.take 32) = IdentOf s t)
+    (h : wrapMin regs d = .found rid n) :
+    ∃ r ∈ regs, r.rid = rid ∧ secOf rid = s ∧ r.transport = t := by
+  obtain ⟨r, hr, hrid, hi, _⟩ := min_match_sound regs d rid n h
+  have := hh r hr
+  rw [hi, hd] at this
+  obtain ⟨h1, h2⟩ := hnc _ _ _ _ this
+  exact ⟨r, hr, hrid, by rw [← hrid]; exact h1.symm, h2.symm⟩
+
+/-- prefix: matched to exactly the registration one of whose identifiers was revealed, and that
+identifier is the PREFIX identifier of its secret -/
+theorem prefixK_matches_exactly_revealed (IdentOf : Nat → Nat → String) (secOf : Nat → Nat)
+    (regs : List RegView) (hh : Honest IdentOf secOf regs)
+    (table : List PrefixEntry) (reveals : Bytes → List String) (d : Bytes) (rid n : Nat)
+    (h : wrapPrefixK table reveals regs d = .found rid n) :
+    ∃ e ∈ table, IdentOf (secOf rid) 4 ∈ reveals (window d e.offset) ∧ n = e.offset + 64 := by
+  obtain ⟨e, he, r, hr, hrid, hrev, htr, _, _, _, _, hn⟩ := prefixK_match_sound table reveals regs d rid n h
+  refine ⟨e, he, ?_, hn⟩
+  have := hh r hr
+  rw [htr, hrid] at this
+  rw [← this]; exact hrev
+
+/-- **Cross-transport flights are rejected by the prefix classifier**: if every identifier that any
+station key reveals from any candidate window is an identifier of a transport other than prefix
+(a tag built from a min / obfs4 / DTLS registration's identifier — whoever built it) or of no
+visible registration at all, nothing is accepted. -/
+theorem cross_transport_rejected (IdentOf : Nat → Nat → String) (secOf : Nat → Nat)
+    (hnc : NoTagCollision IdentOf) (regs : List RegView) (hh : Honest IdentOf secOf regs)
+    (table : List PrefixEntry) (reveals : Bytes → List String) (d : Bytes)
+    (hx : ∀ e ∈ table, ∀ id ∈ reveals (window d e.offset),
+      (∃ s t, id = IdentOf s t ∧ t ≠ 4) ∨ ∀ r ∈ regs, r.ident ≠ id) :
+    ∀ rid n, wrapPrefixK table reveals regs d ≠ .found rid n := by
+  intro rid n hf
+  obtain ⟨e, he, r, hr, _, hrev, htr, _⟩ := prefixK_match_sound table reveals regs d rid n hf
+  rcases hx e he r.ident hrev with ⟨s, t, hid, ht⟩ | hno
+  · have := hh r hr
+    rw [hid] at this
+    obtain ⟨_, h2⟩ := hnc _ _ _ _ this
+    exact ht (by rw [h2, htr])
+  · exact hno r hr rfl
+
+/-- obfs4 selects candidates by identifier length; under the idealisation that only obfs4
+identifiers have that length the matched registration IS an obfs4 registration -/
+theorem obfs4_match_is_obfs4 (IdentOf : Nat → Nat → String) (secOf : Nat → Nat)
+    (hlen : ∀ s t, (IdentOf s t).length = 104 → t = 2)
+    (regs : List RegView) (hh : Honest IdentOf secOf regs) (marks : List Nat) (d : Bytes) (rid n : Nat)
+    (h : wrapObfs4 marks regs d = .found rid n) :
+    ∃ r ∈ regs, r.rid = rid ∧ r.transport = 2 ∧ rid ∈ marks := by
+  obtain ⟨r, hr, hrid, hm, hl, _⟩ := obfs4_match_sound marks regs d rid n h
+  refine ⟨r, hr, hrid, ?_, hm⟩
+  have := hh r hr
+  rw [this] at hl
+  exact hlen _ _ hl
+
+/-- cross-phantom for prefix and obfs4: nothing that is revealed / marked only for registrations that
+are not tracked under this phantom is accepted -/
+theorem cross_phantom_rejected_prefix (s : St) (p : String) (info) (table : List PrefixEntry)
+    (reveals : Bytes → List String) (d : Bytes)
+    (h : ∀ e ∈ table, ∀ id ∈ reveals (window d e.offset), s.decoys.contains (p, id) = false) :
+    ∀ rid n, wrapPrefixK table reveals (views s p info) d ≠ .found rid n := by
+  intro rid n hf
+  obtain ⟨e, he, r, hr, _, hrev, _⟩ := prefixK_match_sound table reveals _ d rid n hf
+  exact not_tracked_here_invisible s p _ info (h e he r.ident hrev) r hr rfl
+
+theorem cross_phantom_rejected_obfs4 (s : St) (p : String) (info) (marks : List Nat) (d : Bytes)
+    (h : ∀ r ∈ views s p info, r.rid ∉ marks) :
+    ∀ rid n, wrapObfs4 marks (views s p info) d ≠ .found rid n := by
+  intro rid n hf
+  obtain ⟨r, hr, hrid, hm, _⟩ := obfs4_match_sound marks _ d rid n hf
+  exact h r hr (by rw [hrid]; exact hm)
+
+/-- the length constants of the obfs4 classifier model are the code's (regenerated each run) -/
+theorem obfs4_consts_pinned :
+    CJ.Gen.Obfs4.clientMinHandshake = obfs4MinHandshake ∧ CJ.Gen.Obfs4.maxHandshake = obfs4MaxHandshake ∧
+    2 * CJ.Gen.Obfs4.identLen = obfs4IdentHexLen ∧
+    CJ.Gen.Obfs4.clientMinHandshake = CJ.Gen.Obfs4.representativeLen + CJ.Gen.Obfs4.markLen + CJ.Gen.Obfs4.macLen := by
+  decide
 
 /-! ## altered tags -/
 
@@ -340,10 +578,72 @@ theorem prefix_no_panic (reveal : Bytes → Option String) (regs : List RegView)
     rw [gen_tag_len] at this
     exact this
 
+theorem prefixLoopK_no_panic (reveals : Bytes → List String) (regs : List RegView) (d : Bytes)
+    (table : List PrefixEntry) (st : PLoop)
+    (hwf : ∀ e ∈ table, e.offset + prefixTagLen ≤ max e.minLen e.maxLen) :
+    prefixLoopK reveals regs d st table ≠ .panic := by
+  induction table generalizing st with
+  | nil =>
+    simp only [prefixLoopK]
+    split; · simp
+    split <;> simp
+  | cons e es ih =>
+    simp only [prefixLoopK]
+    split
+    · rename_i v hv
+      intro hp; subst hp
+      exact prefixIterK_no_panic reveals regs d st e (hwf e (List.mem_cons_self ..)) hv
+    · exact ih _ (fun e' he' => hwf e' (List.mem_cons_of_mem _ he'))
+
+/-- … with any number of station keys -/
+theorem prefixK_no_panic (reveals : Bytes → List String) (regs : List RegView) (d : Bytes) :
+    wrapPrefixK CJ.Gen.prefixTable reveals regs d ≠ .panic := by
+  unfold wrapPrefixK
+  split
+  · simp
+  · apply prefixLoopK_no_panic
+    intro e he
+    have := (prefix_table_wf e he).1
+    rw [gen_tag_len] at this
+    exact this
+
 /-! ## non-vacuity -/
 
 def rv0 : RegView := { ident := toHex (List.replicate 32 7), transport := 1, prefixParam := none, rid := 5 }
 example : wrapMin [rv0] (List.replicate 40 7) = .found 5 32 := by decide
 example : wrapMin [rv0] (List.replicate 31 7) = .tryAgain := by decide
+
+-- several keys: the first key reveals an unregistered identifier, the second the registered one
+def rk : RegView := { ident := "bb", transport := 4, prefixParam := some (some 0), rid := 7 }
+def rm1 : RegView := { ident := "cc", transport := 1, prefixParam := none, rid := 8 }
+example : wrapPrefixK [e0] (fun _ => ["zz", "bb"]) [rk] w0 = .found 7 64 := by decide
+-- a tag built from a min registration's identifier is refused with the transport error
+example : wrapPrefixK [e0] (fun _ => ["cc"]) [rk, rm1] w0 = .errIncorrectTransport := by decide
+-- NoTagCollision / Honest are satisfiable: identifiers that spell out (secret, transport) in unary
+theorem rep_inj (s t s' t' : Nat)
+    (h : List.replicate s 'x' ++ 'y' :: List.replicate t 'x' = List.replicate s' 'x' ++ 'y' :: List.replicate t' 'x') :
+    s = s' ∧ t = t' := by
+  induction s generalizing s' with
+  | zero =>
+    cases s' with
+    | zero => simp at h; exact ⟨rfl, h⟩
+    | succ n => simp [List.replicate_succ] at h
+  | succ n ih =>
+    cases s' with
+    | zero => simp [List.replicate_succ] at h
+    | succ m =>
+      simp only [List.replicate_succ, List.cons_append, List.cons.injEq, true_and] at h
+      obtain ⟨h1, h2⟩ := ih m h
+      exact ⟨by omega, h2⟩
+
+def unaryIdent (s t : Nat) : String := String.ofList (List.replicate s 'x' ++ 'y' :: List.replicate t 'x')
+
+example : NoTagCollision unaryIdent := by
+  intro s t s' t' h
+  exact rep_inj s t s' t' (String.ofList_injective h)
+example : Honest unaryIdent (fun rid => rid) [{ ident := unaryIdent 3 4, transport := 4, prefixParam := none, rid := 3 }] := by
+  intro r hr
+  simp only [List.mem_singleton] at hr
+  subst hr; rfl
 
 end CJ.Props.C02
